@@ -472,6 +472,13 @@ class SpecGen:
         else:
             nargs = r.randint(0 if not root else 1, 3)
             node["args"] = {"abc"[i]: self.pick_any() for i in range(nargs)}
+        if cfg.get("mutating_bodies") and not selector:
+            # in-place work on an argument that is the value of a whole-section / whole-list option WITHOUT a default
+            # (labrea hands every evaluation its own copy of such a value; a default object would be shared)
+            by = {n["id"]: n for n in self.nodes}
+            m = [a for a, nid in node["args"].items() if by[nid]["k"] == "opt" and by[nid]["key"] in U.WHOLE_KEYS and "default" not in by[nid] and "domain" not in by[nid]]
+            if m and r.random() < 0.7:
+                node["mutates"] = m
         if cfg["dispatch"] and r.random() < 0.4:
             x = r.random()
             if x < 0.5:
@@ -634,6 +641,14 @@ def children(n):
         out.append(n["base"])
     elif k == "namespace":
         pass
+    return out
+
+
+def dsclass_members(by, n):
+    """name -> node id of the members a dataset class really has (own body > mixin > inherited)."""
+    out = dict(dsclass_members(by, by[n["base"]])) if n.get("base") else {}
+    out.update({nm: v for nm, v in n["mixin"]})
+    out.update({nm: v for nm, v in n["fields"] + n["plain"]})
     return out
 
 
